@@ -7,6 +7,7 @@ import Rmk.Spec.Ssz
 import Rmk.Spec.Apply
 import Rmk.Impl.Codec
 import Rmk.Impl.Misc
+import Rmk.Impl.Store
 import Driver.Sexp
 namespace Driver
 open Rmk
@@ -155,6 +156,45 @@ def runPath (t : Ty) (v : Option Val) (keys : List Key) : String :=
       | _, _ => none
     join (base ++ [kv "i.node" (rootO at_)])
 
+def toSOp : Sexp → Option (Impl.SOp ⊕ Nat)
+  | .list [.atom "child", r, k] => do pure (.inl (.child (← atomNat r) (← atomNat k)))
+  | .list [.atom "mut", r, op] => do pure (.inl (.mutate (← atomNat r) (← toOp op)))
+  | .list [.atom "bad", r, op] => do pure (.inl (.mutate (← atomNat r) (← toOp op)))
+  | .list [.atom "copy", r] => do pure (.inl (.copy (← atomNat r)))
+  | .list [.atom "snap", r] => do pure (.inr (← atomNat r))
+  | _ => none
+
+/-- store histories: after every op the root and encoding of every held view and of every snapshot -/
+def runStore (t : Ty) (v : Val) (ops : List (Impl.SOp ⊕ Nat)) : String :=
+  match Impl.construct H t v with
+  | none => "i.ctor=err"
+  | some n0 =>
+    let viewStr (o : Impl.VObj) : String :=
+      hexOf (o.backing.root H) ++ ":" ++ hexO ((Impl.serTree H o.ty o.backing).map (·.1))
+    let rec go (k : Nat) (s : Impl.Store) (snaps : List (Ty × Node)) (ops : List (Impl.SOp ⊕ Nat))
+        (acc : List String) : List String :=
+      match ops with
+      | [] => acc.reverse
+      | op :: rest =>
+        let (s', snaps', status) : Impl.Store × List (Ty × Node) × String :=
+          match op with
+          | .inr r =>
+            match s[r]? with
+            | some o => (s, snaps ++ [(o.ty, o.backing)], "ok")
+            | none => (s, snaps, "err")
+          | .inl sop =>
+            match Impl.step H s sop with
+            | some s2 => (s2, snaps, "ok")
+            | none => (s, snaps, "err")
+        let p := toString k
+        let out := [
+          kv (p ++ ".i") status,
+          kv (p ++ ".views") (String.intercalate "," (s'.map viewStr)),
+          kv (p ++ ".snaps") (String.intercalate "," (snaps'.map fun (q : Ty × Node) =>
+            hexOf (q.2.root H) ++ ":" ++ hexO ((Impl.serTree H q.1 q.2).map (·.1))))]
+        go (k + 1) s' snaps' rest (out.reverse ++ acc)
+    join (go 0 [{ ty := t, backing := n0, hook := none }] [] ops [])
+
 def toOperand (w v : Sexp) : Option Impl.Operand := do
   let v ← atomInt v
   match w with
@@ -166,6 +206,7 @@ def runCase (xs : List Sexp) : Option String :=
   | [.atom "val", t, v] => do pure (runVal (← toTy t) (← toVal v))
   | [.atom "type", t] => do pure (runType (← toTy t))
   | .atom "hist" :: t :: v :: ops => do pure (runHist (← toTy t) (← toVal v) (← ops.mapM toOp))
+  | .atom "store" :: t :: v :: ops => do pure (runStore (← toTy t) (← toVal v) (← ops.mapM toSOp))
   | [.atom "dec", t, .atom pre, .atom body, .atom post] => do
     pure (runDec (← toTy t) (← unhexAux (pre.toList.drop 1)) (← unhexAux (body.toList.drop 1))
       (← unhexAux (post.toList.drop 1)))
